@@ -1131,11 +1131,56 @@ def r13_10(ctx, counts) -> RuleResult:
     return res
 
 
+def r13_11(ctx, counts) -> RuleResult:
+    """install_unicode_data installs on every normal exit"""
+    from ..engine.cfg import CFG, node_writes
+    model = ctx.model
+    res = RuleResult(
+        'R13.11', 'INSTALL-ALWAYS-INSTALLS',
+        'unicode_subsets.install_unicode_data replaces the module-level Unicode data and clears '
+        'the cache of the lazy subsets derived from the old data. Every path from its entry to a '
+        'normal exit passes the store of the module-level data object and the clear() of the '
+        'subsets cache (CFG must-pass-through, exception exits excluded). A version string does '
+        'not identify the installed tables (a custom module can be installed under the '
+        'interpreter\'s version), so "already installed" is not a reason to return early: '
+        'install_unicode_data() would no longer restore the default data.')
+    mod = model.module('elementpath.regex.unicode_subsets')
+    f = mod.toplevel_function('install_unicode_data')
+    if f is None:
+        raise AnalysisError('install_unicode_data vanished')
+    globs = {n_ for st in ast.walk(f.node) if isinstance(st, ast.Global) for n_ in st.names}
+    cfg = CFG(f.node)
+    stores = [nd for nd in cfg.nodes if any(t in globs for t, _ in node_writes(nd))]
+    clears = [nd for nd in cfg.nodes if nd.ast is not None and any(
+        isinstance(c, ast.Call) and isinstance(c.func, ast.Attribute) and c.func.attr == 'clear'
+        for e in nd.exprs() for c in ast.walk(e))]
+    if not globs or not stores or not clears:
+        raise AnalysisError('install_unicode_data: global store / cache clear not located')
+    n = 0
+    for what, marks in (('the store of the module-level data', stores),
+                        ('the clear() of the subsets cache', clears)):
+        n += 1
+        path = cfg.path_avoiding([cfg.entry], lambda q: q is cfg.exit, lambda q: q in marks,
+                                 follow=lambda lb: lb != 'exc', skip_start=False)
+        res.instances.append(f'{f.key}: every normal exit passes {what}: {path is None}')
+        if path is None:
+            res.ok()
+        else:
+            res.fail(finding('R13.11', f, path[-2].ast if len(path) > 1 and path[-2].ast is not None
+                             else f.node, f'exit without {what.split()[1]}',
+                             f'install_unicode_data can return without {what} '
+                             f'({cfg.fmt_path(path)[:4]}): the tables of an earlier call stay '
+                             f'installed although the caller asked for (or asked to restore) '
+                             f'other data'))
+    counts['install_obligations'] = n
+    return res
+
+
 def run(ctx) -> dict:
     counts: dict[str, int] = {}
     results = [r13_1(ctx, counts), r13_2(ctx, counts), r13_3(ctx, counts), r13_4(ctx, counts),
                r13_6(ctx, counts), r13_7(ctx, counts), r13_8(ctx, counts),
-               r13_9(ctx, counts), r13_10(ctx, counts)]
+               r13_9(ctx, counts), r13_10(ctx, counts), r13_11(ctx, counts)]
     # the run-length builders of the category tables (fallback for Unicode versions without a
     # generated table, and the UnicodeData.txt loader) treat major and minor categories with
     # cloned blocks: the clones must be consistent
